@@ -570,7 +570,7 @@ Proof.
   - eapply IH; [|exact Ha|exact Hb]. lia.
 Qed.
 
-Theorem prior_cut b tag : 0 <= b -> (2 <= tag)%Z ->
+Theorem prior_cut_gen b tag : 0 <= b -> (0 < b \/ (2 <= tag)%Z) ->
   exists P R, es = P ++ R /\ (forall p, In p P -> kle_ev p b tag) /\ (forall r, In r R -> klt_ev b tag r) /\
               prior sts s0 b tag = St P.
 Proof.
@@ -583,7 +583,7 @@ Proof.
   assert (H0f : key_lt b tag (nth 0 sts s0) = false).
   { apply not_true_is_false. intro X. apply key_lt_spec in X.
     assert (E0 : nth 0 sts s0 = s0) by (unfold sts; destruct es; reflexivity). rewrite E0 in X.
-    unfold s0, init_state, tBPM in X. simpl in X. destruct X as [X|[_ X]]; [lra|lia]. }
+    unfold s0, init_state, tBPM in X. simpl in X. destruct X as [X|[X1 X]]; [lra|destruct Htag as [Hp|Hp]; [lra|lia]]. }
   assert (Hmono : forall i j, (i <= j < length sts)%nat ->
             key_lt b tag (nth i sts s0) = true -> key_lt b tag (nth j sts s0) = true).
   { intros i j Hij H. destruct i as [|i]; [congruence|]. destruct j as [|j]; [lia|].
@@ -605,14 +605,24 @@ Proof.
   - unfold prior. fold r. unfold sts. rewrite run_states_nth by lia. unfold St. f_equal. f_equal. lia.
 Qed.
 
-Theorem time_at_cut b tag : 0 <= b -> (2 <= tag)%Z ->
+Theorem prior_cut b tag : 0 <= b -> (2 <= tag)%Z ->
+  exists P R, es = P ++ R /\ (forall p, In p P -> kle_ev p b tag) /\ (forall r, In r R -> klt_ev b tag r) /\
+              prior sts s0 b tag = St P.
+Proof. intros Hb Ht. apply prior_cut_gen; [exact Hb|right; exact Ht]. Qed.
+
+Theorem time_at_cut_gen b tag : 0 <= b -> (0 < b \/ (2 <= tag)%Z) ->
   exists P R, es = P ++ R /\ (forall p, In p P -> kle_ev p b tag) /\ (forall r, In r R -> klt_ev b tag r) /\
               time_at sts s0 b tag == Ecut (St P) b.
 Proof.
-  intros Hb Ht. destruct (prior_cut b tag Hb Ht) as (P & R & E & HP & HR & Hp).
+  intros Hb Ht. destruct (prior_cut_gen b tag Hb Ht) as (P & R & E & HP & HR & Hp).
   exists P, R. repeat split; try assumption.
   unfold time_at. rewrite Hp, Qred_correct. apply (tu_at_cut P R b tag E HP HR).
 Qed.
+
+Theorem time_at_cut b tag : 0 <= b -> (2 <= tag)%Z ->
+  exists P R, es = P ++ R /\ (forall p, In p P -> kle_ev p b tag) /\ (forall r, In r R -> klt_ev b tag r) /\
+              time_at sts s0 b tag == Ecut (St P) b.
+Proof. intros Hb Ht. apply time_at_cut_gen; [exact Hb|right; exact Ht]. Qed.
 
 (* ---- the pauses between two keys, as a sum over the rows ---- *)
 Definition kltb (b : Q) (tag : Z) (b' : Q) (tag' : Z) : bool := qlt b b' || (qeq b b' && (tag <? tag')%Z).
@@ -681,14 +691,14 @@ Proof.
 Qed.
 
 (* ================================================================== the interval law *)
-Theorem time_interval_law b1 t1 b2 t2 c :
-  0 <= b1 -> b1 <= b2 -> (2 <= t1)%Z -> (2 <= t2)%Z -> (b1 == b2 -> (t1 <= t2)%Z) ->
+Theorem time_interval_law_gen b1 t1 b2 t2 c :
+  0 <= b1 -> b1 <= b2 -> (0 < b1 \/ (2 <= t1)%Z) -> (0 < b2 \/ (2 <= t2)%Z) -> (b1 == b2 -> (t1 <= t2)%Z) ->
   (forall x, b1 <= x -> x < b2 -> is_rate td x c) ->
   time_at sts s0 b2 t2 == time_at sts s0 b1 t1 + c * (b2 - b1) + pauses_between b1 t1 b2 t2.
 Proof.
   intros H0 H12 Ht1 Ht2 Htag Hrate.
-  destruct (time_at_cut b1 t1 H0 Ht1) as (P1 & R1 & E1 & HP1 & HR1 & T1).
-  destruct (time_at_cut b2 t2) as (P2 & R2 & E2 & HP2 & HR2 & T2); [lra|exact Ht2|].
+  destruct (time_at_cut_gen b1 t1 H0 Ht1) as (P1 & R1 & E1 & HP1 & HR1 & T1).
+  destruct (time_at_cut_gen b2 t2) as (P2 & R2 & E2 & HP2 & HR2 & T2); [lra|exact Ht2|].
   assert (Hk : forall e, kle_ev e b1 t1 -> klt_ev b2 t2 e -> False).
   { unfold kle_ev, klt_ev. intros e [A|[A A']] [B|[B B']]; try lra. assert (b1 == b2) by lra. specialize (Htag H). lia. }
   assert (HQ : exists Q, P2 = P1 ++ Q /\ R1 = Q ++ R2).
@@ -712,6 +722,12 @@ Proof.
     rewrite <- G, gsum_events. reflexivity.
   - intros q Hq. split; [apply HR1; apply in_or_app; left; exact Hq|apply HP2; apply in_or_app; right; exact Hq].
 Qed.
+
+Theorem time_interval_law b1 t1 b2 t2 c :
+  0 <= b1 -> b1 <= b2 -> (2 <= t1)%Z -> (2 <= t2)%Z -> (b1 == b2 -> (t1 <= t2)%Z) ->
+  (forall x, b1 <= x -> x < b2 -> is_rate td x c) ->
+  time_at sts s0 b2 t2 == time_at sts s0 b1 t1 + c * (b2 - b1) + pauses_between b1 t1 b2 t2.
+Proof. intros H0 H12 Ht1 Ht2. apply time_interval_law_gen; auto. Qed.
 
 (* ================================================================== before beat zero, and the anchor at beat zero *)
 Lemma s0_ok : st_ok s0.
@@ -825,13 +841,13 @@ Proof.
     pose proof (end_val_nonneg P e (Q' ++ R) E). nra.
 Qed.
 
-Theorem time_at_monotone b1 t1 b2 t2 :
-  0 <= b1 -> b1 <= b2 -> (2 <= t1)%Z -> (2 <= t2)%Z -> (b1 == b2 -> (t1 <= t2)%Z) ->
+Theorem time_at_monotone_gen b1 t1 b2 t2 :
+  0 <= b1 -> b1 <= b2 -> (0 < b1 \/ (2 <= t1)%Z) -> (0 < b2 \/ (2 <= t2)%Z) -> (b1 == b2 -> (t1 <= t2)%Z) ->
   time_at sts s0 b1 t1 <= time_at sts s0 b2 t2.
 Proof.
   intros H0 H12 Ht1 Ht2 Htag.
-  destruct (time_at_cut b1 t1 H0 Ht1) as (P1 & R1 & E1 & HP1 & HR1 & T1).
-  destruct (time_at_cut b2 t2) as (P2 & R2 & E2 & HP2 & HR2 & T2); [lra|exact Ht2|].
+  destruct (time_at_cut_gen b1 t1 H0 Ht1) as (P1 & R1 & E1 & HP1 & HR1 & T1).
+  destruct (time_at_cut_gen b2 t2) as (P2 & R2 & E2 & HP2 & HR2 & T2); [lra|exact Ht2|].
   assert (Hk : forall e, kle_ev e b1 t1 -> klt_ev b2 t2 e -> False).
   { unfold kle_ev, klt_ev. intros e [A|[A A']] [B|[B B']]; try lra. assert (b1 == b2) by lra. specialize (Htag H). lia. }
   assert (HQ : exists Q, P2 = P1 ++ Q /\ R1 = Q ++ R2).
@@ -847,6 +863,11 @@ Proof.
   apply (mono_aux Q P1 R2 b1 t1 b2 t2 E1); try assumption.
   intros q Hq. split; [apply HR1; apply in_or_app; left; exact Hq|apply HP2; apply in_or_app; right; exact Hq].
 Qed.
+
+Theorem time_at_monotone b1 t1 b2 t2 :
+  0 <= b1 -> b1 <= b2 -> (2 <= t1)%Z -> (2 <= t2)%Z -> (b1 == b2 -> (t1 <= t2)%Z) ->
+  time_at sts s0 b1 t1 <= time_at sts s0 b2 t2.
+Proof. intros H0 H12 Ht1 Ht2. apply time_at_monotone_gen; auto. Qed.
 
 (* ================================================================== the BPM reported for a beat *)
 Theorem bpm_at_in_force b : 0 <= b -> bpm_in_force td b (bpm_at sts s0 b).
